@@ -230,7 +230,7 @@ def plan_C09(ctx):
     }
     return finish(ctx, res, "model_checking", new, known, replayed, mism, extra,
                   ["specification automaton in ws/rt/c09/c09.go (spec.advance/moveNext/send) is the reading of the property text"],
-                  floors={"paths_completed": ctx.q(10000, 100000)}, sv={"harness_pkg": "rt/c09"})
+                  floors={"paths_completed": ctx.q(10000, 100000), "drivers_undecided_max": 2}, sv={"harness_pkg": "rt/c09"})
 
 
 CLAIMED["C09"] = plan_C09
@@ -279,7 +279,7 @@ def plan_C08(ctx):
     return finish(ctx, res, "model_checking", new, known, replayed, mism, extra,
                   ["reference interpreter ws/rt/c08/c08.go (ref.exec) is the reading of 'structured loops with break/continue/return'",
                    "a top-level Break/Continue ends the generator with the zero result (what Start's final continuation does); not constrained by the property text"],
-                  floors={"paths_completed": ctx.q(20000, 200000)}, sv={"harness_pkg": "rt/c08"})
+                  floors={"paths_completed": ctx.q(20000, 200000), "drivers_undecided_max": 2}, sv={"harness_pkg": "rt/c08"})
 
 
 CLAIMED["C08"] = plan_C08
@@ -335,7 +335,7 @@ def plan_C10(ctx):
                   ["string range, []rune(s) and utf8.DecodeRuneInString are modelled by one engine decoder that mirrors unicode/utf8 (validated natively against the real package in the engine self-test)",
                    "reflect.ValueOf/MapRange/MapIter.Next/Key/Value/Value.Interface are modelled with range semantics over an insertion-ordered map",
                    "integer range reference is the spec reading: i = 0..n-1, nothing for n <= 0"],
-                  floors={"paths_completed": ctx.q(1000, 10000)}, sv={"harness_pkg": "rt/c10", "order_free": r"Drive_map_"})
+                  floors={"paths_completed": ctx.q(1000, 10000), "drivers_undecided_max": 2}, sv={"harness_pkg": "rt/c10", "order_free": r"Drive_map_"})
 
 
 CLAIMED["C10"] = plan_C10
@@ -395,7 +395,7 @@ def plan_C17(ctx):
     }
     return finish(ctx, res, "model_checking", new, known, replayed, mism, extra,
                   ["verifrt.Depth() = interpreter frame depth (sum over the resumer chain); Go has no tail calls, so frame count is a faithful proxy for stack growth up to a constant factor"],
-                  floors={"paths_completed": ctx.q(300, 3000)}, sv={"harness_pkg": "rt/c17"})
+                  floors={"paths_completed": ctx.q(300, 3000), "drivers_undecided_max": 2}, sv={"harness_pkg": "rt/c17"})
 
 
 CLAIMED["C17"] = plan_C17
@@ -524,6 +524,13 @@ def directed_c01():
     D.append(("nested_if_inner_init_effect", [E(1), ("raw", "if g1 {\n\tif x := rt.Eff(772, a); x&1 == 0 {\n\t\tYield(x + 1)\n\t}\n}"), Y("b + 2")]))
     D.append(("nested_if_inner_init_assign_in_loop", [("decl", "x", "b"), ("for", ("decl", "i", "0"), "i < n", ("inc", "i"), [("raw", "if (i + a)&1 == 0 {\n\tif x = rt.Eff(773, x + i); g2 {\n\t\tYield(x + 3)\n\t}\n}"), E(2)]), Y("x + 4")]))
     D.append(("nested_if_outer_init_inner_plain", [("raw", "if x := rt.Eff(774, a); x&1 == 0 {\n\tif g1 {\n\t\tYield(x + 5)\n\t\trt.Emit(rt.EFF, 775)\n\t}\n}"), Y("b + 6")]))
+    # an expression statement that merely contains a closure with a panic is not a terminating statement
+    D.append(("closure_with_panic_as_argument_not_last", [E(1), ("raw", "chk := func(f func() int) int {\n\treturn f()\n}\nrt.Emit(45, chk(func() int {\n\tif a != a {\n\t\tpanic(\"never mind\")\n\t}\n\treturn a\n}))"), Y("a + 1"), E(2), Y("b + 2")]))
+    D.append(("iife_with_panic_in_loop_body", [("for", ("decl", "i", "0"), "i < n", ("inc", "i"), [("raw", "func() {\n\tif i > 5 {\n\t\tpanic(i)\n\t}\n}()"), Y("i + 1"), E(3)]), Y("a")]))
+    # a continue of a loop with a yielding post, followed by nested loops / delegations in the same body
+    D.append(("continue_then_nested_loop_yield_post", [("decl", "i", "0"), ("for", None, "i < n", Y("i + 100"), [("inc", "i"), ("if", "g1", [("continue",)], None), ("for", ("decl", "j", "0"), "j < 2", ("inc", "j"), [E(4)]), Y("i + 1")])]))
+    D.append(("continue_then_nested_range_yield_post", [("decl", "i", "0"), ("for", None, "i < n", Y("i + 100"), [("inc", "i"), ("if", "(i+a)&1 == 0", [("continue",)], None), ("range", "_", "w", ":=", "[]int{1, 2}", [Y("i*10 + w")])])]))
+    D.append(("continue_then_yieldfrom_yieldfrom_post", [("decl", "i", "0"), ("for", None, "i < n", ("yieldfrom", "H2(i + 50)"), [("inc", "i"), ("if", "(i+a)&1 == 0", [E(5), ("continue",)], None), ("yieldfrom", "H2(i)")])]))
     D.append(("yielding_switch_ends_loop", [("for", ("decl", "i", "0"), "i < n", ("inc", "i"), [("switch", None, "i&1", [("0", [Y("i + 1")])], None)]), Y("a + 2")]))
     return D
 
@@ -931,6 +938,10 @@ def directed_c05():
     # a break behind a delegation inside a type-switch clause leaves the type switch only
     D.append(("tswitch_break_behind_delegation_in_loop", [("raw", "var t any = a\nif g3 {\n\tt = \"s\"\n}"), ("for", ("decl", "i", "0"), "i < n + 1", ("inc", "i"), [("tswitch", None, "t", [("int", [YF("H2(i)"), ("if", "g1", [("break",)], None), Y("i + 767")])], [YF("H1(i)"), ("if", "g2", [("break",)], None), ("eff", 768)]), Y("i + 1")]), YF("H2(b)"), Y("a")]))
     D.append(("tswitch_bound_break_behind_delegation_no_loop", [("raw", "var t any = a\nif g3 {\n\tt = \"s\"\n}"), ("tswitch", "tv", "t", [("int", [YF("H2(tv)"), ("if", "g1", [("break",)], None), Y("tv + 769")])], [("raw", "_ = tv"), Y("b + 770"), ("if", "g2", [("break",)], None), YF("H1(b)")]), YF("H2(b)"), Y("b + 771")]))
+    # operands that are neither calls nor identifiers, with an effect: evaluated exactly once
+    D.append(("operand_index_with_effect", [("raw", "srcs := []Iter[int]{H2(a), H1(b), H2(b), H1(a)}\nk := 0\nnext := func() int {\n\tk++\n\trt.Emit(rt.EFF, 780+k)\n\treturn k - 1\n}"), YF("srcs[next()]"), Y("k + 1"), YF("srcs[next()]"), Y("k + 2")]))
+    D.append(("operand_receive", [("raw", "ch := make(chan Iter[int], 3)\nch <- H2(a)\nch <- H1(b)\nch <- H2(b)"), YF("<-ch"), Y("len(ch) + 781"), ("for", ("decl", "i", "0"), "i < n && len(ch) > 0", YF("<-ch"), [("inc", "i"), Y("i + 782")])]))
+    D.append(("operand_field_of_call_result", [("raw", "type holder struct{ it Iter[int] }\nk := 0\npop := func() holder {\n\tk++\n\trt.Emit(rt.EFF, 783+k)\n\treturn holder{H2(a + k)}\n}"), YF("pop().it"), Y("k + 3")]))
     D.append(("same_iter_twice", [("raw", "it := H1(a)"), YF("it"), YF("it"), Y("b")]))
     return D
 
@@ -1034,6 +1045,10 @@ def directed_c03():
     D.append(("for_var_captured_escapes_noyield", [("raw", "var fs []func() int"), ("for", ("decl", "i", "0"), "i < n", ("inc", "i"), [("raw", "fs = append(fs, func() int { return i + a })")]), ("raw", "for _, f := range fs {\n\tYield(f() + 1000)\n}")]))
     D.append(("for_var_captured_writer_escapes", [("raw", "var fs []func() int"), ("for", ("decl", "i", "0"), "i < n", ("inc", "i"), [("raw", "fs = append(fs, func() int { i += 10; return i + b })"), Y("i + 1")]), ("raw", "for _, f := range fs {\n\tYield(f() + 1000)\n}")]))
     D.append(("if_else_scopes", [("decl", "x", "a"), ("if", "g1", [("decl", "x", "b + 1"), Y("x + 2")], [("assign", "x", "x + 3"), Y("x + 4")]), Y("x + 5")]))
+    # variables declared by the statements of a loop body exist once per iteration: closures that outlive the iteration keep theirs
+    D.append(("body_var_decl_escaping_closure", [("raw", "var fs []func() int"), ("for", ("decl", "i", "0"), "i < n", ("inc", "i"), [("raw", "var x int\nx += a + i*10\nfs = append(fs, func() int {\n\tx++\n\treturn x\n})"), Y("x + 1")]), ("raw", "for _, f := range fs {\n\tYield(f() + 100)\n}\nfor _, f := range fs {\n\tYield(f() + 200)\n}")]))
+    D.append(("body_var_define_escaping_closure_while", [("raw", "var fs []func() int\nw := 0"), ("for", None, "w < n", None, [("raw", "w++\nx := b + w\nvar y int\nfs = append(fs, func() int {\n\ty += x\n\treturn y\n})"), Y("x + y + 2")]), ("raw", "for _, f := range fs {\n\tYield(f() + 300)\n}\nfor _, f := range fs {\n\tYield(f() + 400)\n}")]))
+    D.append(("body_var_decl_escaping_closure_called_next_iteration", [("raw", "prev := func() int { return -1 }"), ("for", ("decl", "i", "0"), "i < n", ("inc", "i"), [("raw", "var x int\nvar s struct{ v int }"), Y("prev() + 3"), ("raw", "x, s.v = a+i, b+i\nprev = func() int {\n\tx += s.v\n\treturn x\n}")]), Y("prev() + 4")]))
     return D
 
 
@@ -1065,6 +1080,10 @@ def plan_C03(ctx):
             body = smp.body([rng.randint(5, 14)], [], False, 0)
             if not gen.contains_yield(body):
                 continue
+            if getattr(smp, "nesc", 0):
+                # closures that escaped their loop iteration are called when the body is done; a return
+                # in the body skips them, which is fine
+                body = [("raw", "var esc []func() int")] + body + [("raw", "for _, f := range esc {\n\tYield(f() + 7000)\n}")]
             corp.add(gen.Program("v%04d" % n, body, named_result=(n % 2 == 0), family="scp"))
             n += 1
         return {"programs_generated": n, "directed": len(directed_c03()),
@@ -1318,7 +1337,7 @@ def plan_C13(ctx):
         ps.append(gen.Program("n_closure_assign_range_empty_body", [("raw", TAIL), ("yield", "i1*100 + l1"), ("raw", "var off int\nvar r rune\nfor off, r = range \"héé\" {\n}"), ("yield", "off*1000 + int(r)")], named_result=True, family="bys", tags={"bystander:closure-in-generator"}))
         ps.append(gen.Program("n_closure_prefix_sums", [("raw", PRE), ("yield", "xs[1]"), ("yield", "xs[2] + xs[3]")], named_result=True, family="bys", tags={"bystander:closure-in-generator"}))
         ps.append(gen.Program("n_closure_array_pointer_fill", [("yield", "a"), ("raw", PA), ("yield", "arr[1]"), ("yield", "arr[2] + arr[3]")], named_result=True, family="bys", tags={"bystander:closure-in-generator"}))
-        DIRS = "//go:noinline\nfunc pin@(x int) int { return x*3 + 1 }\n\n//go:embed gen_@.go\nvar hdr@ string\n\n// a free-floating remark that nothing depends on\n\n//go:nosplit\nfunc tiny@() int { return len(hdr@) & 1 }\n"
+        DIRS = "//go:noinline\nfunc pin@(x int) int { return x*3 + 1 }\n\n//go:embed gen_@.go\nvar hdr@ string\n\n// a free-floating remark that nothing depends on\n\n//go:nosplit\nfunc tiny@() int { return (len(hdr@) >> 40) & 1 }\n"
         for name, imps in (("directives", "_embed"), ("blank_imports", "_embed _image/png _unicode/utf8"), ("documented_generator", "_embed")):
             pid = "dv_" + name
             p = gen.Program(pid, [("yield", "pin%s(a)" % pid), ("yield", "tiny%s() + b" % pid)], helpers=("// EXTRA-IMPORTS: %s\n" % imps) + DIRS.replace("@", pid), named_result=True, family="dirs", tags={"bystander:" + name})
